@@ -282,8 +282,9 @@ def main(argv=None):
         jobs = []
         for (m, cn), cases_ in bycontract.items():
             step = max(1, (len(cases_) + 15) // 16)
+            k_c = min(K, getattr(byname[cn][1], "concrete_samples", K))
             for i in range(0, len(cases_), step):
-                jobs.append((m, cn, cases_[i:i + step], K, a.seed))
+                jobs.append((m, cn, cases_[i:i + step], k_c, a.seed))
         ctx = mp.get_context("fork")
         with ctx.Pool(min(a.jobs, len(jobs))) as pool:
             outs = pool.starmap(driver.batch_subprocess, jobs)
